@@ -32,10 +32,12 @@ from nauyaca.server import tls_protocol as tlsmod  # noqa: E402
 from nauyaca.server.protocol import GeminiServerProtocol  # noqa: E402
 
 OWN = {"C06": {"PrefixAlways", "CompleteAtClose", "ByteExact"},
+       "C01": {"ClosedAfterCloseNotify", "CompleteAtClose"},
        "C07": {"PlainInOrder", "PlainComplete", "SegIndepTls"},
-       "C15": {"HsTimerWhileHandshaking", "HsTimeoutCloses"},
+       "C15": {"HsTimerWhileHandshaking", "HsTimeoutCloses", "ClosedAfterCloseNotify"},
        "C20": {"InnerOnlyAfterHandshake", "NoPlainBeforeTls"}}
-DEVS = {"C06": {"DevSingleSendCall": ["CompleteAtClose"]}, "C07": {"DevReadOnceAfterHandshake": ["PlainComplete"]},
+DEVS = {"C01": {},
+        "C06": {"DevSingleSendCall": ["CompleteAtClose"]}, "C07": {"DevReadOnceAfterHandshake": ["PlainComplete"]},
         "C15": {"DevNoHsTimer": ["HsTimerWhileHandshaking"]}, "C20": {}}
 HS_TIMEOUT = 10.0
 HEADER = b"20 application/octet-stream\r\n"
@@ -220,6 +222,8 @@ def judge(obs_seq, acts, items, reply, h):
         junk = any(x["k"] == "junk" for x in items[:fed])
         if o["clientGot"] > total:
             bad.add("PrefixAlways")
+        if o["closeNotify"] and o["tcp"] == "open":
+            bad.add("ClosedAfterCloseNotify")
         if o["closeNotify"] and o["innerUp"] and o["clientGot"] != total and o["plainIn"] >= reply["after"]:
             bad.add("CompleteAtClose")
         if o["innerUp"] and (n_hs < 2):
